@@ -755,16 +755,16 @@ func rulePanic3(c *Ctx, r *Reporter) {
 
 func rulePanic4(c *Ctx, r *Reporter) {
 	byDesign := map[string]string{
-		"bsonkit.Compare":                "unreachable: every Class has a case (TAB-1)",
-		"bsonkit.compareNumbers":         "unreachable: 4x4 numeric cases (TAB-1)",
-		"bsonkit.Inspect":                "only for types ConvertValue never produces (TAB-1)",
-		"bsonkit.cloneValue":             "only for types ConvertValue never produces (TAB-1); documented on Clone",
-		"bsonkit.MustConvert":            "Must* helper: panics by contract; callers pass literals of supported types",
-		"bsonkit.MustConvertList":        "Must* helper: panics by contract",
-		"bsonkit.MustConvertValue":       "Must* helper: panics by contract; callers pass stored (already converted) values",
-		"(*dbkit.Semaphore).Release":     "over-release only; excluded by the token typestate (LOCK-4)",
-		"mongokit.NewCollection":         "CreateIndex on a constant, valid _id configuration",
-		"lungo.assertOptions":            "documented: unsupported driver option",
+		"bsonkit.Compare":            "unreachable: every Class has a case (TAB-1)",
+		"bsonkit.compareNumbers":     "unreachable: 4x4 numeric cases (TAB-1)",
+		"bsonkit.Inspect":            "only for types ConvertValue never produces (TAB-1)",
+		"bsonkit.cloneValue":         "only for types ConvertValue never produces (TAB-1); documented on Clone",
+		"bsonkit.MustConvert":        "Must* helper: panics by contract; callers pass literals of supported types",
+		"bsonkit.MustConvertList":    "Must* helper: panics by contract",
+		"bsonkit.MustConvertValue":   "Must* helper: panics by contract; callers pass stored (already converted) values",
+		"(*dbkit.Semaphore).Release": "over-release only; excluded by the token typestate (LOCK-4)",
+		"mongokit.NewCollection":     "CreateIndex on a constant, valid _id configuration",
+		"lungo.assertOptions":        "documented: unsupported driver option",
 	}
 	driverTypes := map[string]bool{"Collection": true, "Database": true, "Client": true, "IndexView": true, "Session": true, "Bucket": true, "UploadStream": true, "DownloadStream": true, "MongoClient": true, "MongoSession": true, "Cursor": true, "Stream": true}
 	n := 0
